@@ -1,13 +1,14 @@
 #!/bin/bash
-# tools/round.sh <suffix> [parallelism]: run tools/mutant2.sh on every /tmp/mut/C??<suffix>/m* (scratch worktrees,
+# tools/round.sh <suffix> [parallelism] ["props"]: run tools/mutant2.sh on every /tmp/mut/C??<suffix>/m* (scratch worktrees,
 # /repo untouched), a few at a time; demo directory and go test flags are taken from the demo's header comment.
-sfx=$1; par=${2:-3}
+sfx=$1; par=${2:-3}; only=" ${3:-} "   # optional third argument: "C01 C07 ..." = only these properties
 here=$(cd "$(dirname "$0")/.." && pwd)
 declare -A dflt=( [C01]=avl [C02]=avl [C03]=sync2 [C04]=sync2 [C05]=sync2 [C06]=lists [C07]=slices [C08]=arrays [C09]=sync2 [C10]=chans [C11]=maps [C12]=slices [C13]=slices [C14]=slices [C15]=slices [C16]=lists [C17]=sync2 [C18]=sync2 [C19]=chans [C20]=. )
 jobs=()
 for d in /tmp/mut/C??$sfx/m*; do
   [ -f $d/patch.diff ] || continue
   prop=$(basename $(dirname $d)); prop=${prop%$sfx}
+  [ "$only" != "  " ] && [[ "$only" != *" $prop "* ]] && continue
   demo=$(ls $d/*_test.go 2>/dev/null | head -1); [ -z "$demo" ] && continue
   hdr=$(head -25 $demo)
   # directory: ".../<wt>/<dir>/<file>_test.go" or "./<dir>/" in a go test command
